@@ -279,6 +279,23 @@ pub fn run(env: &Env, run: &Run) -> (Stats, Coverage) {
                 st.nontrivial += 1;
             }
         }
+        // neighbours in code-point order inside the transparent runs of the ZWNJ rule (a scan that
+        // remembers the table entry it matched last and probes next to it), and the same code
+        // point in the other planes behind it (the last entry of a table, then something above it)
+        let pred = (0..x).rev().find_map(char::from_u32).map(|p| p as u32);
+        let succ = (x + 1..=0x10FFFF).find_map(char::from_u32).map(|p| p as u32);
+        for n in [pred, succ].into_iter().flatten() {
+            for (l, pos) in [(vec![D, x, n, ZWNJ, D], 3usize), (vec![D, n, x, ZWNJ, D], 3), (vec![D, ZWNJ, n, x, D], 1), (vec![D, ZWNJ, x, n, D], 1)] {
+                let s = from_cps(&l);
+                check_rule(env, CtxRule::Zwnj, &l, &s, pos, st);
+            }
+        }
+        for a in alias_chars(c) {
+            for (l, pos) in [(vec![D, ZWNJ, x, a as u32], 1usize), (vec![D, ZWNJ, x, a as u32, D], 1), (vec![a as u32, x, ZWNJ, D], 2)] {
+                let s = from_cps(&l);
+                check_rule(env, CtxRule::Zwnj, &l, &s, pos, st);
+            }
+        }
         // [X],0: NotApplicable exactly for X not the rule's own
         let l = [x];
         let s = c.to_string();
